@@ -62,6 +62,46 @@ del hidden
 def caller_with_local(tw, x):
     loc = tw
     return _HID["h"](x)
+
+
+def snapshot_prog():
+    """Takes a snapshot of its locals, then defines and calls a nested function (resolvable only through the
+    locals of calling frames): what the program sees in its snapshot must not depend on tracing."""
+    snap = locals()
+
+    def inner():
+        return 1
+    inner()
+    return sorted(snap)
+
+
+def rng_prog(n):
+    """Uses the interpreter-wide random stream between traced calls."""
+    import random
+    random.seed(20240229)
+    out = []
+    for i in range(n):
+        f_arg(i)
+        out.append(random.random())
+    return out
+
+
+def gc_prog(n):
+    """Functions created at run time and dropped: their captured objects must be finalised when the program lets go."""
+    import gc
+    from mtfx.tripwires import FINALIZED, Holder
+    n0 = len(FINALIZED)
+    out = []
+    for i in range(n):
+        captured = Holder.make_local()
+
+        def handler(x, _c=captured):
+            return x
+        handler(i)
+        del handler, captured
+        gc.collect()
+        out.append(len(FINALIZED) - n0)
+    return out
 '''
 
 KINDS = ["module_function", "instance_method", "static_method", "unresolvable"]
@@ -266,6 +306,43 @@ def run_life_scenario(sc):
             "obsU": visU, "obsT": visT, "prevOK": life["restored"], "flushes": life["flushes"], "escaped": life["escaped"]}
 
 
+def run_ambient_scenario(sc):
+    """Ambient interpreter state the program can observe: the global random stream (under sampling), a locals()
+    snapshot, the lifetime of functions created at run time.  sc = {tid, ambient, rate}."""
+    env = _setup()
+    M, T = env["M"], env["T"]
+    import monkeytype.tracing as mtt
+    path = env["path"]
+
+    def one(traced):
+        T.JOURNAL.clear()
+        T.ROLE[0] = "arg"
+        logger = Logger()
+        before, escaped, obs = sys.getprofile(), "NONE", []
+
+        def body():
+            if sc["ambient"] == "rng":
+                obs.append(M.rng_prog(8))
+            elif sc["ambient"] == "locals_snapshot":
+                obs.append(M.snapshot_prog())
+            elif sc["ambient"] == "closure_lifetime":
+                obs.append(M.gc_prog(3))
+        try:
+            if traced:
+                with mtt.trace_calls(logger, 0, lambda code: code.co_filename == path, sc["rate"] or None):
+                    body()
+            else:
+                body()
+        except Exception as e:
+            escaped = type(e).__name__
+        return [json.dumps(o) for o in obs], {"restored": sys.getprofile() is before, "flushes": logger.flushes if traced else 1,
+                                              "escaped": escaped}
+    visU, _ = one(False)
+    visT, life = one(True)
+    return {"tid": sc["tid"], "kind": "ambient", "hooks": [], "obsU": visU, "obsT": visT, "prevOK": life["restored"],
+            "flushes": life["flushes"], "escaped": life["escaped"]}
+
+
 def _run_chunk(chunk):
     _setup()
     import logging
@@ -276,7 +353,8 @@ def _run_chunk(chunk):
     logging.lastResort.setLevel(logging.WARNING)
     out = []
     for sc in chunk:
-        out.append(run_hook_scenario(sc) if sc["type"] == "hooks" else run_life_scenario(sc))
+        out.append(run_hook_scenario(sc) if sc["type"] == "hooks" else run_ambient_scenario(sc) if sc["type"] == "ambient"
+                   else run_life_scenario(sc))
     return out
 
 
@@ -329,6 +407,12 @@ def main(pid, tier, seed, replay=None):
             scs.append({"type": "life", "hist": b["hist"], "flushFails": b["flushFails"], "prev": b["prev"]})
         plan.append({"family": "lifecycle: every behaviour of MTInterfere (pre-installed profiler x per-call log/inspection "
                                "faults, <= %d calls x flush fault x exit by return/exception)" % maxc, "scenarios": len(scs) - n0})
+        n0 = len(scs)
+        for amb in ("rng", "locals_snapshot", "closure_lifetime"):
+            for rate in (0, 1, 2, 5, 1000):
+                scs.append({"type": "ambient", "ambient": amb, "rate": rate})
+        plan.append({"family": "ambient state: global random stream / locals() snapshot / lifetime of run-time functions x "
+                               "sampling rate", "scenarios": len(scs) - n0})
         for i, s in enumerate(scs):
             s["tid"] = i + 1
     records = run_all(scs)
@@ -351,6 +435,9 @@ def main(pid, tier, seed, replay=None):
                     if sc["type"] == "hooks" and sc["role"] in ("global_other",):
                         vio["function_kind"] = sc["kind"]
                     run.violation(vio, {k: v2 for k, v2 in sc.items() if k != "tid"})
+            elif sc["type"] == "ambient":
+                run.violation({"clause": clause, "ambient": sc["ambient"], "sampled": sc["rate"] > 1},
+                              {k: v2 for k, v2 in sc.items() if k != "tid"})
             elif sc["type"] == "life":
                 run.violation({"clause": clause, "flush_fails": sc["flushFails"], "escaped": rec["escaped"]},
                               {k: v2 for k, v2 in sc.items() if k != "tid"})
